@@ -10,6 +10,8 @@ require (
 
 require (
 	github.com/google/go-configfs-tsm v0.3.2 // indirect
+	github.com/google/go-eventlog v0.0.2-0.20241213203620-f921bdc3aeb0 // indirect
+	github.com/google/go-tpm v0.9.0 // indirect
 	go.uber.org/multierr v1.11.0 // indirect
 	golang.org/x/crypto v0.17.0 // indirect
 	golang.org/x/sys v0.19.0 // indirect
